@@ -126,7 +126,7 @@ def de_request(spec, rec):
 
 
 # ------------------------------------------------------------------ reconfigured runs (DE, NM)
-DEC_OPS = ("step", "setpenalty", "setconstraints", "setranges", "finalize", "setlimits", "settermination", "earlyexit", "clearexit")
+DEC_OPS = ("step", "setpenalty", "setconstraints", "setranges", "finalize", "setlimits", "settermination", "earlyexit", "clearexit", "monadd")
 
 
 def _cfg_sexp(spec, cfg):
